@@ -2,7 +2,7 @@
    both generic wire values (Base/Sx.v).  A request is (op arg ...). *)
 From Coq Require Import ZArith List Bool.
 From Mistletoe Require Import Base.Sx Base.PyStr Model.SpanTokenizer Model.Tree Model.TreeWire
-  Model.HtmlRenderer Spec.HtmlSpec Model.LatexRenderer Spec.LatexSpec Model.Contrib Model.DocLines Model.MarkdownRenderer Re.ReMatch Gen.GenRegex Gen.GenConfig Model.CoreTokens Model.Inline Model.Unescape Model.Block Model.Build Model.Parser.
+  Model.HtmlRenderer Spec.HtmlSpec Model.LatexRenderer Spec.LatexSpec Model.Contrib Model.DocLines Model.MarkdownRenderer Re.ReMatch Gen.GenRegex Gen.GenConfig Model.CoreTokens Model.Inline Model.Unescape Model.Block Model.Build Model.Parser Spec.Delims.
 Import ListNotations.
 Local Open Scope Z_scope.
 
@@ -150,6 +150,9 @@ Definition op_markdown_html (req : sx) : sx :=
   sx_of_str (markdown_html (mkHopts (bool_of_sx (sx_nth req 2)) (bool_of_sx (sx_nth req 3)))
                            (negb (Z.eqb (z_of_sx (sx_nth req 1)) 1)) (str_of_sx (sx_nth req 4))).
 
+(* ---- C06 : (60 text) -> specification algorithm's rendering ---- *)
+Definition op_spec_emph (req : sx) : sx := sx_of_str (spec_emphasis (str_of_sx (sx_nth req 1))).
+
 Definition dispatch (req : sx) : sx :=
   match z_of_sx (sx_nth req 0) with
   | 16 => op_tokenize req
@@ -158,6 +161,7 @@ Definition dispatch (req : sx) : sx :=
   | 81 => op_check_html req
   | 17 => op_latex req
   | 30 => op_re req
+  | 60 => op_spec_emph req
   | 40 => op_doc req
   | 41 => op_markdown_html req
   | 31 => op_inline req
